@@ -15,7 +15,7 @@ reshaped to shape_i (`Geff.Spec.sectionOf`; theorems in GeffProps/C02Layout.lean
 This module generates that dimension for the direction-2 stream of C02.py (`C02.lay_out` executes a plan):
   `layout_cases`   BOUNDED-EXHAUSTIVE: every size vector over {0,1,2}^n (n = 1..3; some of n = 4) x EVERY permutation of
                    the append order x gap patterns (none / leading / between all / trailing / leading+trailing; thorough:
-                   all 0-1 patterns); N-D elements (2-D and 3-D shapes with equal and different sizes, zero extents) x
+                   all 0-1 patterns for n <= 3); N-D elements (2-D and 3-D shapes with equal and different sizes, zero extents) x
                    every permutation; shared / nested / repeated elements x every permutation; masks; node and edge side;
                    zarr formats 2 and 3; several data dtypes
   `random_layout_cases`  seeded random graphs with 1-2 variable-length properties of rank 0..3 and a random plan each
@@ -125,7 +125,7 @@ def layout_cases(rng, quick):
         dt = DTYPES[vi % 5]        # pairwise different values: not bool
         elems = [_elem(dt, (s,), 10 * (j + 1)) for j, s in enumerate(sizes)]
         for order in itertools.permutations(range(n)):
-            for gaps, trail in gap_patterns(n, "all" if not quick else "named" if n == 1 else "rotate", i)[: 1 if quick and n == 4 else None]:
+            for gaps, trail in gap_patterns(n, ("all" if n <= 3 else "rotate") if not quick else "named" if n == 1 else "rotate", i)[: 1 if quick and n == 4 else None]:
                 packed = not any(gaps) and not trail
                 side = "node" if (i + vi) % 3 else "edge"
                 plan = {"order": list(order), "gaps": gaps, "trail": trail}
